@@ -218,7 +218,7 @@ def _exit_obligations(ex, ctx, fi, contract, e, deferred, ghost_env, rty, n_exit
     result = e.value if e.status == "return" else VNone()
     declared = set()
     for d in deferred:
-        if d.kind in ("raises", "may_raise"):
+        if d.kind in ("raises", "may_raise", "must_raise"):
             declared.add(d.node.args[0].id)
     if raised and exc_value.cls not in declared:
         ctx.obls.append(Obligation(f"no-unexpected-exception/{exc_value.cls}", "safety", e.hyps(), z3.BoolVal(False), where))
@@ -247,6 +247,28 @@ def _exit_obligations(ex, ctx, fi, contract, e, deferred, ghost_env, rty, n_exit
                 fname = ast.literal_eval(fa)
                 ctx.obls.append(Obligation(f"post/shares/{fname}", "post", e.hyps(), _same_field(ex, e, hd, hs, fname), where,
                                            {"text": f"result.{fname} is self.{fname}"}))
+        if d.kind in ("must_raise", "not_called"):
+            # must_raise(E, when=c): under c (entry state) the function does not return normally;
+            # not_called("qualname", when=c): under c no call of that function happens on any path
+            when = None
+            for kw in d.node.keywords:
+                if kw.arg == "when":
+                    when = kw.value
+            if when is None:
+                raise Unsupported(f"{d.kind} needs when=")
+            hit = (not raised) if d.kind == "must_raise" else any(ev[0] == "call" and ev[1] == ast.literal_eval(d.node.args[0]) for ev in e.events)
+            if hit:
+                old_heap = e.heap
+                e.heap = dict(e.old_heap)
+                for r, h in old_heap.items():
+                    if r not in e.heap:
+                        e.heap[r] = h
+                try:
+                    for pc2, c in _cond_split(ex, e, when):
+                        ctx.obls.append(Obligation(f"{d.kind.replace('_', '-')}/{label}", "post", pc2, z3.simplify(z3.Not(c)), where, {"text": ast.unparse(when)}))
+                finally:
+                    e.heap = old_heap
+            continue
         if d.kind == "raises":
             exc = d.node.args[0].id
             when = None
